@@ -70,7 +70,7 @@ def check_case(sub, case):
         sub.fail("C01|limits|" + kind, case, "limits of %r are (%r, %r), expected (%r, %r)" % (
             description, rng.lower_limit, rng.upper_limit, lower, upper))
     _check_sibling(sub, case, cls, kind, description)
-    for probe in probes:
+    for probe in list(probes) + list(reversed(probes)):
         expected = member(items, probe)
         sub.evaluations += 1
         try:
